@@ -22,6 +22,9 @@ def gen(rng, tier="quick", **force):
         n_par=int(rng.choice([1, 1, 2])), dtype=str(rng.choice(["f8", "f8", "f4_vecs", "mixed"])), fd=bool(rng.random() < 0.3),
         seed=int(rng.integers(0, 2**31)),
     )
+    # real non-symmetric H_0 with complex-conjugate eigenvalue pairs that are split between the explicit and
+    # the implicit subspace (real dtype of H_0, complex eigenvectors)
+    spec["real_pairs"] = bool((not spec["hermitian"]) and (not spec["complex"]) and rng.random() < 0.5)
     spec.update(force)
     return spec
 
@@ -51,6 +54,35 @@ def build(spec):
             if s >= 2 and spec["degenerate"]:
                 E[off + 1] = E[off]
             off += s
+    if spec.get("real_pairs") and not hermitian and not cplx:
+        # states (2m, 2m+1) for m < npairs carry lambda, conj(lambda); the explicit blocks take the states
+        # 0, 2, 4, ... first, so that partners of explicit levels lie in the implicit subspace
+        npairs = max(1, min(k, (N - k)))
+        order = [2 * m for m in range(npairs)] + [q for q in range(N) if q >= 2 * npairs] + [2 * m + 1 for m in range(npairs)]
+        order = order[:N]
+        Ep = np.zeros(N, complex)
+        W = np.zeros((N, N), complex)
+        vals = rng.choice(np.arange(1, 4 * N), size=N, replace=False) * 0.5
+        for m in range(npairs):
+            a_, b_ = vals[2 * m], 0.5 * (1 + m)
+            Ep[2 * m], Ep[2 * m + 1] = a_ + 1j * b_, a_ - 1j * b_
+            W[2 * m, 2 * m], W[2 * m + 1, 2 * m] = 1 / np.sqrt(2), 1j / np.sqrt(2)
+            W[2 * m, 2 * m + 1], W[2 * m + 1, 2 * m + 1] = 1 / np.sqrt(2), -1j / np.sqrt(2)
+        for q in range(2 * npairs, N):
+            Ep[q] = vals[q]
+            W[q, q] = 1.0
+        Sm = np.linalg.qr(rng.normal(size=(N, N)))[0] @ (np.eye(N) + 0.3 * np.triu(rng.normal(size=(N, N)), 1))
+        Rfull = Sm @ W
+        Lfull = np.linalg.inv(Rfull).conj().T
+        H0c = Rfull @ np.diag(Ep) @ Lfull.conj().T
+        assert np.abs(H0c.imag).max() < 1e-9
+        R, L, E = Rfull[:, order], Lfull[:, order], Ep[order]
+        H0 = H0c.real
+        terms = [rng.normal(size=(N, N)) for _ in range(spec["n_par"])]
+        offs = np.concatenate([[0], np.cumsum(sizes)])
+        expl = [(np.array(R[:, offs[i]:offs[i + 1]]), np.array(L[:, offs[i]:offs[i + 1]])) for i in range(len(sizes))]
+        full = expl + [(np.array(R[:, k:]), np.array(L[:, k:]))]
+        return dict(spec=spec, N=N, k=k, sizes=sizes, E=E, R=R, L=L, H0=H0, terms=terms, expl=expl, full=full, hermitian=False)
     if hermitian:
         Q = np.linalg.qr(rnd((N, N)))[0]
         R, L = Q, Q
